@@ -442,6 +442,14 @@ def cuda_launch(I, launch, args, kwargs, st, n):
     old = I.hooks.get("cuda_grid")
     I.hooks["cuda_grid"] = lambda I_, st_: X.var(tau)
     trial.ranges[tau] = (X.const(0), grid)
+    old_dec = I.hooks.get("decide")
+
+    def dec(cond):
+        # a guard on the segment start that has one truth value for every admissible start is decided at once (no case split)
+        v = _admissible_truth(cond, tau)
+        if v is True or v is False: return v
+        return old_dec(cond) if old_dec is not None else None
+    I.hooks["decide"] = dec
     try:
         I.depth += 1
         I.exec_block(fn.node.body, trial)
@@ -449,6 +457,8 @@ def cuda_launch(I, launch, args, kwargs, st, n):
         I.depth -= 1
         if old is None: I.hooks.pop("cuda_grid", None)
         else: I.hooks["cuda_grid"] = old
+        if old_dec is None: I.hooks.pop("decide", None)
+        else: I.hooks["decide"] = old_dec
     facts = {"grid": grid, "blocks": blocks, "threads": threads, "tau": tau, "kernel": fn.key, "guards": []}
     for a, l0 in cont0.values():
         for i in range(l0, len(a.stores)):
